@@ -20,7 +20,17 @@ import (
 
 func check(c *Ctx, h *animenc.History, stream string) {
 	rng := c.Rng.Fork()
-	o := animenc.Run(h, rng)
+	o, vkey := animenc.RunAndEval(c, h, rng, animenc.EvalAlpha)
+	if h.Faulty() {
+		// direct evaluation only: the model has no failing codec
+		c.D.Evaluations++
+		c.Count("stream:" + stream)
+		c.Count(fmt.Sprintf("rejected-addframes:%d", len(o.Rejected)))
+		if vkey != "" {
+			c.Count("violation:" + vkey)
+		}
+		return
+	}
 	mode := "al"
 	if o.Err == "" && o.CodecExact(h) >= 0 {
 		mode = "st" // the codec hypothesis fails on a written frame: compare the structure only
@@ -56,8 +66,8 @@ func check(c *Ctx, h *animenc.History, stream string) {
 		c.Nontrivial(animenc.Signature(h, o))
 	}
 	c.Sample(map[string]any{"canvas": fmt.Sprintf("%dx%d", h.W, h.H), "inputs": len(h.Frames), "lossless": h.Lossless, "mixed": h.Mixed, "quality": h.Quality, "result": animenc.Signature(h, o)})
-	if key := animenc.EvalAlpha(c, h, o); key != "" {
-		c.Count("violation:" + key)
+	if vkey != "" {
+		c.Count("violation:" + vkey)
 	}
 }
 
@@ -82,6 +92,28 @@ func main() {
 			q := rng.Pick(0, 1, 10, 25, 50, 75, 90, 99, 100, rng.Intn(101))
 			h := animenc.RandHistory(rng, 16, lossless, mixed, q, classes)
 			check(c, h, "random")
+		}
+		nsc := 8
+		if c.Thorough() {
+			nsc = 100
+		}
+		for i := 0; i < nsc; i++ {
+			rng := c.Rng.Fork()
+			for _, h := range animenc.Scenarios(rng, i&1 == 1, i&2 == 2, rng.Pick(0, 50, 75, 100), classes) {
+				check(c, h, "scenario")
+			}
+		}
+		ninj := 300
+		if c.Thorough() {
+			ninj = 4000
+		}
+		for i := 0; i < ninj; i++ {
+			rng := c.Rng.Fork()
+			h := animenc.RandHistory(rng, 8, i&1 == 1, i&2 == 2, rng.Pick(0, 50, 100), classes)
+			for k := rng.Range(1, 3); k > 0; k-- {
+				h.FailCalls = append(h.FailCalls, rng.Intn(4*len(h.Frames)))
+			}
+			check(c, h, "error-injection")
 		}
 		for q := 0; q <= 100; q++ {
 			c.Case(fmt.Sprintf("qmd %d", q), fmt.Sprintf("%d", animation.VerifQualityToMaxDiff(q)))
